@@ -17,7 +17,7 @@ one() {
   WT=/var/tmp/harmless.$$.$id
   git -C /repo worktree add -q --detach $WT HEAD || { echo "$id: cannot create worktree"; return; }
   if ! git -C $WT apply /verif/harmless/$id/patch.diff 2>/dev/null; then echo "$id: patch does not apply"; else
-    out=$(VERIF_REPO=$WT VERIF_SCRATCH_OUT=$WT.out ./bin/gocv check $prop quick 2>&1); ex=$?
+    out=$(VERIF_REPO=$WT VERIF_SCRATCH_OUT=$WT.out ${GOCV:-./bin/gocv} check $prop quick 2>&1); ex=$?
     python3 - "/verif/harmless/$id/result.json" "$prop" "$ex" "$(echo "$out" | grep '^VIOLATION' | head -5)" <<'PY'
 import json,sys,re
 p,prop,ex,out=sys.argv[1],sys.argv[2],int(sys.argv[3]),sys.argv[4]
